@@ -6,6 +6,8 @@ from hypothesis import strategies as st
 
 import xgi
 
+from .. import nets
+
 PID = "C13"
 RULE = (
     "enumerated part: every simplicial complex on the vertex sets {0..n-1}, n <= 4 (all downward-closed families of "
@@ -85,6 +87,14 @@ def components(S):
 
 def run_case(case, ctx):
     S = build(case)
+    _evaluate(S, case, ctx)
+    # the same complex after one more simplex was added in place: all matrices are derived and checked again
+    if nets.small_edit(S) is not None:
+        ctx.event("re-evaluated-after-edit")
+        _evaluate(S, case, ctx)
+
+
+def _evaluate(S, case, ctx):
     mem = {e: frozenset(m) for e, m in S.edges.members(dtype=dict).items()}
     big = [e for e in S.edges if len(mem[e]) >= 2]
     bits = case.get("ori")
@@ -121,10 +131,10 @@ def run_case(case, ctx):
         L = xgi.hodge_laplacian(S, k, ori)
         if L.size:
             C(np.allclose(L, L.T), ("hodge", "symmetric"), "k=%d" % k)
-            C(np.linalg.eigvalsh((L + L.T) / 2).min() >= -1e-9, ("hodge", "psd"), "k=%d" % k)
+            C(nets.min_eig(L) >= -1e-9, ("hodge", "psd"), "k=%d" % k)
     if len(S.nodes):
         L0 = xgi.hodge_laplacian(S, 0, ori)
-        kd = sum(1 for v in np.linalg.eigvalsh(L0) if abs(v) < 1e-9) if L0.size else 0
+        kd = sum(1 for v in np.linalg.eigvalsh(L0) if abs(v) < 1e-9) if (L0.size and np.all(np.isfinite(L0))) else 0
         C(L0.shape == (len(S.nodes), len(S.nodes)) and kd == components(S), ("hodge", "kernel-of-L0-vs-components"), lambda: "kernel dim %d, components %d" % (kd, components(S)))
     ctx.mark(maxo >= 2 and ori is not None and any(ori.values()))
 
